@@ -221,11 +221,11 @@ static int op_allowed (const Gen *g, const VOp *op)
 static int find_vars (const ProgSpec *ps, int kind, int size, int need_written, int *out)
 {
   int i, n = 0;
-  int no_share = v_excluded ("ldres-shared-source");
+  int no_share = v_excluded ("special-load-shared-source");
   for (i = 0; i < ps->nvars; i++) {
     const PVar *v = &ps->vars[i];
     if (v->kind != kind || v->size != size) continue;
-    if (no_share && kind == VK_SRC && v->res_b >= 0) continue;   /* known finding: resampled arrays are not shared */
+    if (no_share && kind == VK_SRC && (v->res_b >= 0 || v->up)) continue;   /* known finding: resampled/upsampled arrays are not shared */
     if (need_written == 1 && !v->written) continue;
     if (need_written == 2 && v->written) continue;
     if (v->role != ROLE_ANY) continue;
@@ -322,7 +322,7 @@ static int general_operand (Gen *g, int size, int is_float_operand)
   }
   if (ch < 15) {                /* source array */
     n = find_vars (ps, VK_SRC, size, 0, cand);
-    if (g->est_temps < 58 && g->est_insns < 94) {
+    if (g->est_temps + ps->count[VK_TEMP] < 54 && g->est_insns < 92) {
       if (n == 0 || (ps->count[VK_SRC] < kind_max[VK_SRC] && vc_chance (g->c, 1, 2))) {
         v = new_source (g, size);
         if (v >= 0) return v;
@@ -333,7 +333,7 @@ static int general_operand (Gen *g, int size, int is_float_operand)
   }
   if (ch < 16) {                /* in-place: read a destination array that is not yet written */
     n = find_vars (ps, VK_DEST, size, 2, cand);
-    if (n == 0 && ps->count[VK_DEST] < kind_max[VK_DEST] && g->est_temps < 58) {
+    if (n == 0 && ps->count[VK_DEST] < kind_max[VK_DEST] && g->est_temps + ps->count[VK_TEMP] < 54) {
       v = ps_addvar (ps, VK_DEST, size);
       if (v >= 0) { ps->has_inplace = 1; ps->vars[v].read = 1; return v; }
     }
@@ -367,7 +367,7 @@ static int dest_operand (Gen *g, int size, int last)
   /* destination array: an unwritten one (possibly read in place before), or a new one */
   n = find_vars (ps, VK_DEST, size, 2, cand);
   if (n && (ps->count[VK_DEST] >= kind_max[VK_DEST] || vc_chance (g->c, 1, 2))) return cand[vc_pick (g->c, (uint32_t) n)];
-  if (g->est_temps < 60 && g->est_insns < 96) {
+  if (g->est_temps + ps->count[VK_TEMP] < 56 && g->est_insns < 94) {
     v = ps_addvar (ps, VK_DEST, size);
     if (v >= 0) {
       if (g->o->allow_align && vc_chance (g->c, 1, 8)) {
@@ -419,7 +419,7 @@ static int gen_insn (Gen *g, const VOp *op, int last)
     int v;
     if ((op->flags & VOP_LOAD) && j == 0) {
       int cand[PS_MAXVARS], n = find_vars (ps, VK_SRC, op->ssz[0], 0, cand);
-      if (starts (op->name, "ldres") && v_excluded ("ldres-shared-source")) n = 0;   /* always a fresh array */
+      if ((starts (op->name, "ldres") || starts (op->name, "loadup")) && v_excluded ("special-load-shared-source")) n = 0;   /* always a fresh array */
       if (n == 0 || (ps->count[VK_SRC] < kind_max[VK_SRC] && vc_chance (g->c, 1, 2))) v = new_source (g, op->ssz[0]);
       else v = -1;
       if (v < 0 && n) v = cand[vc_pick (g->c, (uint32_t) n)];
@@ -429,6 +429,12 @@ static int gen_insn (Gen *g, const VOp *op, int last)
       else if (starts (op->name, "ldres")) v = j == 1 ? scalar_operand (g, 4, ROLE_RES_B, 0, v_excluded ("ldres-start-int") ? 0xffff : 0x3ffff, -1)
                                                      : scalar_operand (g, 4, ROLE_RES_C, 0, 0x2ffff, -1);
       else v = scalar_operand (g, op->ssz[j], ROLE_ANY, 0, 0, -1);
+    } else if ((op->flags & VOP_ACC) && v_excluded ("acc-nonarray-source")) {
+      /* known finding: only array elements are accumulated */
+      int cand[PS_MAXVARS], n = find_vars (ps, VK_SRC, op->ssz[j], 0, cand);
+      if (n == 0 || (ps->count[VK_SRC] < kind_max[VK_SRC] && vc_chance (g->c, 1, 2))) v = new_source (g, op->ssz[j]);
+      else v = -1;
+      if (v < 0 && n) v = cand[vc_pick (g->c, (uint32_t) n)];
     } else {
       v = general_operand (g, op->ssz[j] * mult, fsrc);
     }
@@ -546,9 +552,13 @@ static void ps_finalize (Gen *g)
   ps->max_live_temps = ntemps;
   {
     int j, k;
+    for (j = 0; j < ps->nins; j++)
+      if (ps->ins[j].op->flags & VOP_ACC)
+        for (k = 0; k < 3 && ps->ins[j].op->ssz[k]; k++)
+          if (ps->vars[ps->ins[j].s[k]].kind != VK_SRC) ps->acc_nonarray = 1;
     for (i = 0; i < ps->nvars; i++) {
       int uses = 0;
-      if (ps->vars[i].res_b < 0) continue;
+      if (ps->vars[i].res_b < 0 && !ps->vars[i].up) continue;
       for (j = 0; j < ps->nins; j++)
         for (k = 0; k < 3 && ps->ins[j].op->ssz[k]; k++)
           if (ps->ins[j].s[k] == i) uses++;
@@ -579,7 +589,7 @@ void ps_generate (VChoices *c, const GenOpts *o, ProgSpec *ps, VResult *r)
   while (ps->nins < target && tries < target * 3 && g.nops) {
     const VOp *op = &v_optab[g.ops[vc_pick (c, (uint32_t) g.nops)]];
     tries++;
-    if (g.est_temps > 54 || g.est_insns > 90) break;
+    if (g.est_temps + ps->count[VK_TEMP] > 50 || g.est_insns > 88) break;
     gen_insn (&g, op, ps->nins == target - 1);
   }
   ps_finalize (&g);
